@@ -1,14 +1,15 @@
 (* Property C13 — malformed input is rejected, never crashes, never hangs, never alters earlier
    well-formed entries. Statements only; proofs in Proofs/AmmoSafetyProofs.v,
    Proofs/AmmoPrefixProofs.v, Proofs/AmmoRobustProofs.v, Proofs/AmmoConfigInputProofs.v,
-   Proofs/AmmoJsonRejectProofs.v, Proofs/AmmoVarSourceProofs.v. Every theorem about a decoder
+   Proofs/AmmoJsonRejectProofs.v, Proofs/AmmoVarSourceProofs.v,
+   Proofs/AmmoConfigValueProofs.v. Every theorem about a decoder
    quantifies over ALL byte strings (no well-formedness hypothesis) and over the third-party
    parser oracles. *)
 From Coq Require Import List NArith ZArith Bool.
 From PV Require Import Lib.AmmoBytes Lib.AmmoDecimal Lib.AmmoLines Model.AmmoCommon Model.AmmoUri
-  Model.AmmoUripost Model.AmmoRaw Model.AmmoJson Model.AmmoRobust Model.AmmoConfigInput Model.AmmoJsonReject Model.AmmoVarSource
+  Model.AmmoUripost Model.AmmoRaw Model.AmmoJson Model.AmmoRobust Model.AmmoConfigInput Model.AmmoJsonReject Model.AmmoVarSource Model.AmmoConfigValue
   Proofs.AmmoSafetyProofs Proofs.AmmoPrefixProofs Proofs.AmmoRobustProofs Proofs.AmmoConfigInputProofs
-  Proofs.AmmoJsonRejectProofs Proofs.AmmoVarSourceProofs.
+  Proofs.AmmoJsonRejectProofs Proofs.AmmoVarSourceProofs Proofs.AmmoConfigValueProofs.
 Import ListNotations.
 
 (* [bad r] = the Scan ended in a panic or ran out of fuel. The fuel of every loop is linear
@@ -399,4 +400,32 @@ Example C13_csv_examples :
   (* reading error after a good record: the error of the source *)
   csv_source true [[97]]%N false [[[120]]]%N true = VErr /\
   csv_source false [[97]]%N false [] false = VErr.
+Proof. repeat split; vm_compute; reflexivity. Qed.
+
+(* ---------- round 6: a configuration value given through a placeholder, cast to an integer field ---------- *)
+
+(* whatever is accepted is the number written and lies in the range of the field's type *)
+Theorem C13_config_value_cast_exact :
+  forall unsigned (bits z r : Z),
+    cast_int unsigned bits z = Some r ->
+    r = z /\ (if unsigned then (0 <= r < 2 ^ bits)%Z else (- 2 ^ (bits - 1) <= r < 2 ^ (bits - 1))%Z).
+Proof. exact cast_int_exact. Qed.
+Print Assumptions C13_config_value_cast_exact.
+
+(* unsigned field: accepted exactly for the numbers of the type's range, so never for a negative one *)
+Theorem C13_config_value_unsigned_accepts_iff_in_range :
+  forall bits z : Z, (exists r, cast_int true bits z = Some r) <-> (0 <= z < 2 ^ bits)%Z.
+Proof. exact cast_int_unsigned_iff. Qed.
+Print Assumptions C13_config_value_unsigned_accepts_iff_in_range.
+
+(* the former code (ParseInt, then the conversion to the unsigned type) accepted -1 as 255: the defect repaired
+   in /repo df402fa *)
+Theorem C13_config_value_wrapping_refuted :
+  exists z r : Z, cast_int_wrapping true 8 z = Some r /\ r <> z /\ cast_int true 8 z = None.
+Proof. exists (-1)%Z, 255%Z. repeat split; try (vm_compute; reflexivity). discriminate. Qed.
+Print Assumptions C13_config_value_wrapping_refuted.
+
+Example C13_config_value_examples :
+  cast_int true 8 200 = Some 200%Z /\ cast_int true 8 300 = None /\ cast_int false 8 200 = None /\
+  cast_int true 64 18446744073709551615 = Some 18446744073709551615%Z /\ cast_int false 64 (-1) = Some (-1)%Z.
 Proof. repeat split; vm_compute; reflexivity. Qed.
